@@ -190,6 +190,14 @@ def oracle(case, r):
             elif red['ok'] != f['ok']:
                 bad.append(('C08/failing-rule-influences-result', {'txn': it['txn'], 'mode': it['mode'], 'failing_rules': it['failing']['ok'],
                                                                      'with': f['ok'], 'without': red['ok']}))
+    elif case['kind'] == 'legacy':
+        for k in ('full', 'reduced'):
+            if 'raises' in r[k]:
+                bad.append((f'C08/legacy-rules-classification-raises:{r[k]["raises"]}', r[k].get('msg')))
+        if not bad and r.get('all_fail') and r['full']['ok'] != r['reduced']['ok']:
+            bad.append(('C08/failing-tag-influences-result-legacy', {'with': r['full']['ok'], 'without': r['reduced']['ok']}))
+        if not bad and len(r['full']['ok']['rows']) != len(case['txns']):
+            bad.append(('C08/rows-lost', {'got': len(r['full']['ok']['rows']), 'want': len(case['txns'])}))
     elif case['kind'] == 'rows':
         for k in ('full', 'reduced'):
             if 'raises' in r[k]:
@@ -383,6 +391,33 @@ def main(tier):
                                              'payments': [{'amount': 120.0, 'date': '2025-01-03'}, {'amount': 64.0, 'date': '2025-02-03'}]},
                                             {'name': 'Kiosk', 'category': 'Fun', 'subcategory': 'x', 'tags': ['coffee'],
                                              'payments': [{'amount': 8.0, 'date': '2025-03-03'}]}]})
+    # a let binding that fails, followed by an INDEPENDENT binding whose text merely contains the failed name (in a string literal,
+    # as an attribute or function-argument name): the later binding keeps its own value
+    for bad_let in ['next(r for r in rows if r.amount == 99999)', 'field.nope', 'description + 1', 'rows[9].item']:
+        for nm, later in [('order', 'contains("NETFLIX") or contains("MAIL ORDER")'), ('memo', 'contains("NETFLIX") and not contains("memo")'),
+                          ('item', 'any(r.item == "Book" for r in rows)'), ('amount2', 'amount != 0 or "amount2" == ""'),
+                          ('x', 'regex("NETFLIX|x")')]:
+            for mode_let_first in (True, False):
+                lets = [(nm, bad_let), ('shop', later)] if mode_let_first else [('shop', later), (nm, bad_let)]
+                cases.append({'kind': 'engine', 'modes': ['first_match', 'most_specific'], 'variables': [], 'transforms': [],
+                              'data_sources': {'rows': [{'item': 'Book', 'amount': 12.5}], 'empty': []},
+                              'rules': [{'name': 'Good', 'match': 'shop', 'category': 'Subs', 'subcategory': 'Stream', 'tags': ['ok', '{shop}'], 'lets': lets},
+                                        {'name': 'Late', 'match': 'true', 'category': 'Other'}],
+                              'expect': {'rule': 'Good', 'tags': ['ok']},
+                              'txns': [{'description': 'NETFLIX.COM #1234', 'amount': -15.99, 'date': '2025-02-28', 'source': 'Amex', 'field': None}]})
+    # legacy CSV rules with dynamic tags that cannot be evaluated (the legacy path resolves tags with its own evaluator)
+    wd = os.path.join(WORK, 'C08rows')
+    os.makedirs(wd, exist_ok=True)
+    for bad in ILL_VALUE + ['"big" if amount > 100 else description - 1', 'amount + description', 'len(amount)', 'amount // 10',
+                                         'extract("(")', '-description', 'amount.upper()', 'description % 2', 'nope(1)']:
+        cases.append({'kind': 'legacy', 'workdir': wd,
+                      'rows': [['NETFLIX', 'Netflix', 'Subs', 'Stream', ['ok', '{' + bad + '}']],
+                               ['COFFEE', 'Coffee', 'Food', 'Cafe', ['{' + bad + '}', 'cafe', '{uppercase(description)}']],
+                               ['.', '', '', '', ['{' + bad + '}', 'any']]],
+                      'bad_tags': [[0, '{' + bad + '}'], [1, '{' + bad + '}'], [2, '{' + bad + '}']],
+                      'txns': [{'description': 'NETFLIX.COM #1234', 'amount': 15.99, 'date': '2025-02-28'},
+                               {'description': 'COFFEE SHOP - SEATTLE', 'amount': 150.0, 'date': '2025-03-01'},
+                               {'description': 'HULU', 'amount': 9.0, 'date': '2025-03-02'}]})
     cases += [gen_engine_case(rnd) for _ in range(n_e)]
     cases += [gen_views_case(rnd) for _ in range(n_v)]
     wd = os.path.join(WORK, 'C08rows')
@@ -454,7 +489,7 @@ def replay(path):
     if obj.get('kind') != 'counterexample':
         main('quick')
     c = obj['case']
-    if c['kind'] == 'rows':
+    if c['kind'] in ('rows', 'legacy'):
         c['workdir'] = os.path.join(WORK, 'C08rows')
         os.makedirs(c['workdir'], exist_ok=True)
     r = evaluate_cases([c], workers=1)[0]
